@@ -267,6 +267,7 @@ def run_fine_case(case: Dict[str, Any]) -> Dict[str, Any]:
                 tmps.append(getattr(ds.formatter, "data_tmp", None))      # placeholder formatter of __init__
                 dc.add_data_set(ds)
                 dsets.append(ds)
+            D.pre_ops(case, dc, shim_time)
             dc.start()
         except C.MachineryError:
             raise
@@ -278,12 +279,11 @@ def run_fine_case(case: Dict[str, Any]) -> Dict[str, Any]:
         msgs: Dict[int, Any] = {}
         keys: Dict[Tuple[bytes, bytes], int] = {}
         hkeys: Dict[bytes, int] = {}
-        for op in case["ops"]:
-            if op[0] == "u":
-                m = D.mk_msg(op[2], op[3])
-                msgs[op[3]] = m
-                keys[D.key_of(m)] = op[3]
-                hkeys[bytes(m.header)] = op[3]
+        for op in D.all_updates(case):
+            m = D.mk_msg(op[2], op[3])
+            msgs[op[3]] = m
+            keys[D.key_of(m)] = op[3]
+            hkeys[bytes(m.header)] = op[3]
 
         def r_main():
             ctl.tid_of[_real_threading.get_ident()] = "R"
@@ -373,7 +373,7 @@ def run_fine_case(case: Dict[str, Any]) -> Dict[str, Any]:
             if ctl.started and ctl.at.get("W") != "finished":
                 ctl.go["W"].release()
             try:
-                if getattr(dc, "write_thread", None) is not None:
+                if getattr(dc, "write_thread", None) is not None and ctl.started:
                     dc.write_thread.join(10)
                 for ds in dc.datasets:
                     for obj in (ds, getattr(ds.formatter, "data_tmp", None)):
@@ -407,10 +407,8 @@ def fine_block(cid: str, case: Dict[str, Any], obs: Dict[str, Any]) -> List[str]
     lines = [f"CASE {cid} G {int(wp) if float(wp).is_integer() else wp} {tail_len(case)} {alive_check()}"]
     for d in case["ds"]:
         lines.append(f"DS {D.sel_tok(d['types'])} {D.eff_interval(d['interval'])} {D.FMT_TOK[d['fmt']]}")
-    toks = []
-    for op in case["ops"]:
-        toks.append(f"u:{op[1]}:{op[2]}:{op[3]}" if op[0] == "u" else f"{op[0]}:{op[1]}")
-    lines.append("OPS " + " ".join(toks))
+    lines.append("OPS " + D.ops_toks(case["ops"]))
+    lines += D.pre_lines(case)
     lines.append("SCHED " + (case["sched"] or "-"))
     fl = case.get("faults") or []
     lines.append("FAULTS " + (" ".join(map(str, fl)) if fl else "-"))
